@@ -14,6 +14,7 @@ mod c04;
 mod c08;
 mod c16;
 mod c17;
+mod c18;
 mod c05;
 mod peer;
 mod c06;
@@ -209,6 +210,15 @@ fn props() -> Vec<Property> {
         real_vs_stub: vec![("tonic-web GrpcWebClientService / GrpcWebCall (client decode and encode paths)", "real"), ("grpc-web server", "scripted stub with an independent grpc-web encoder"), ("tonic client::Grpc above the layer", "not run here: the translated body is consumed poll by poll"), ("executor", "simulator-owned"), ("bodies", "SimBody seams")],
         assumptions: vec!["a cut exactly at a frame boundary (trailers frame missing altogether) is not judged: the property speaks of cuts inside a frame"],
         required_probes: vec!["cut-inside-trailers-frame-header", "cut-inside-trailers-block", "message-and-trailers-in-one-chunk"],
+    },
+    Property {
+        id: "C18",
+        title: "Health service reports the latest status to Check and Watch",
+        scenarios: vec![Scenario { name: "F-health-histories", engine: "F", run: c18::run, quick: 40_000, thorough: 1_000_000, grid: 0, what: "histories of set/clear/check/watch/next over services {\"\",a,b} (<=12, sometimes <=30 operations) issued as tasks on the simulator's executor through the generated HealthClient -> HealthServer in-process; blocked watchers stay pending while later operations run; final drain of every watcher" }],
+        rule: "one run = one operation history x scheduler choices (which runnable task is polled next, how many steps between operations); every run non-trivial; distinct = distinct hash of structural tape decisions",
+        real_vs_stub: vec![("tonic-health HealthReporter/HealthService/WatchStream, generated HealthClient/HealthServer, tonic codec", "real"), ("tokio::sync::{RwLock, watch}", "real (trusted base)"), ("executor", "simulator-owned cooperative executor (engine F); preemptive thread schedules are engine M (Miri), thorough tier"), ("transport", "in-process call, no HTTP/2")],
+        assumptions: vec!["'first reports the status current at subscription' is read as: the status current at some instant between subscription and the first read (the reference tokio watch semantics)", "cooperative interleavings only in engine F: tasks interleave at await points"],
+        required_probes: vec!["check-registered", "check-not-found", "watch-first-report", "watch-ended-by-clear", "watch-converged-then-pending"],
     },
     Property {
         id: "C07",
